@@ -21,22 +21,28 @@ GE = "pybrops/breed/prot/pt/G_E_Phenotyping.py"
 def u_l_h2(ctx):
     """the assignment is executed from the real methods (extracted) on symbolic reals; the genomic model's variance
     routine is a stub returning an arbitrary positive variance"""
+    fns = {m: loopcut.Extracted(GE + ":G_E_Phenotyping.%s" % m, overrides={"check_is_PhasedGenotypeMatrix": lambda *a: None})
+           for m in ("set_h2", "set_H2")}
     for meth, vname in (("set_h2", "var_A"), ("set_H2", "var_G")):
-        f = loopcut.Extracted(GE + ":G_E_Phenotyping.%s" % meth, overrides={"check_is_PhasedGenotypeMatrix": lambda *a: None})
-        var = real("var")
+        f = fns[meth]
+        varA, varG = real("var_A"), real("var_G")          # two independent variances: the right one must be used
+        var = varA if vname == "var_A" else varG
         h = real("h")
 
         class GP:
-            def var_A(self, pg): return var if vname == "var_A" else sym.Unsupported
-            def var_G(self, pg): return var if vname == "var_G" else sym.Unsupported
+            def var_A(self, pg): return varA
+            def var_G(self, pg): return varG
 
         class Self:
             gpmod = GP()
             var_err = None
+            # sibling methods are the repository's own (a method that delegates to its sibling is followed)
+            def set_h2(self, *a, **k): return fns["set_h2"](self, *a, **k)
+            def set_H2(self, *a, **k): return fns["set_H2"](self, *a, **k)
         me = Self()
         f(me, h, object())
         ve = _t(me.var_err)
-        pre = [var.t > 0, h.t > 0, h.t <= 1]
+        pre = [varA.t > 0, varG.t > 0, h.t > 0, h.t <= 1]
         ctx.prove(meth + ": var/(var+var_err) == target heritability", pre, var.t / (var.t + ve) == h.t)
         ctx.prove(meth + ": var_err >= 0, and == 0 exactly when the target is 1", pre, z3.And(ve >= 0, (ve == 0) == (h.t == 1)))
         ctx.prove(meth + ": canary var_err == var", pre, ve == var.t, expect="fail", timeout_ms=3000)
@@ -106,7 +112,7 @@ def u_b_phenotype(ctx):
         e.prove(tag + ":genotypic-values-from-the-bound-model-on-the-given-population", calls == [("gegv", pgtok)])
         e.prove(tag + ":one-record-per-taxon-environment-replicate", len(df) == nrow)
         cols = list(df.columns)
-        tcols = list(trait) if labelled else ["Trait%d" % (k + 1) for k in range(t)]
+        tcols = list(trait) if labelled else ["Trait" + str(k + 1).zfill(int(numpy.ceil(numpy.log10(t))) + 1) for k in range(t)]
         e.prove(tag + ":columns", cols[:4] == ["taxa", "taxa_grp", "env", "rep"] and [str(c) for c in cols[4:]] == [str(c) for c in tcols])
         # expected draw protocol: per environment one env draw; per replicate one rep draw and one (ntaxa x t) error draw
         d = me.rng.draws
